@@ -95,7 +95,11 @@ def gen(rng, sid):
         proto = 1
         reply_l4 = struct.pack('>BBHHH', rty, 0, 0, icmp_id, icmp_seq) + (payload if ty == 8 else bytes(12 if ty == 13 else 4))
         fields = [('icmp id', 4, 2), ('icmp sequence', 6, 2)]
-    lines.append('ser')        # the request is "sent": derived fields (protocol, ...) are now set
+    # most requests are "sent" (serialized: derived fields such as the IPv4 protocol are then set); some are matched as built --
+    # the matched fields are all set by then, a reply must not be turned down because a derived field was never filled in
+    sent = rng.random() < 0.7
+    if sent:
+        lines.append('ser')
     extra = []
     hsize = 20
     if not v6 and l2 == 'none' and l4 in ('UDP', 'ICMP') and rng.random() < 0.5:
@@ -113,10 +117,22 @@ def gen(rng, sid):
         hl = 40
         reply_l3 = struct.pack('>IHBB', 6 << 28, len(reply_l4), proto, 64) + da + sa + reply_l4
         l3fields = [('ipv6 source', 8, 16), ('ipv6 destination', 24, 16)]
+        # the mirrored reply behind one to three extension headers (hop-by-hop, destination options, routing), whole and cut at every
+        # length from the end of the fixed header on (in front of, inside and right behind each extension header)
+        chain = [0] + [rng.choice([60, 43, 60]) for _ in range(rng.randrange(0, 3))]
+        ext = b''
+        for j, t_ in enumerate(chain):
+            nxt = chain[j + 1] if j + 1 < len(chain) else proto
+            n8 = rng.choice([0, 0, 1])
+            ext += bytes([nxt, n8]) + (bytes([1, 4 + 8 * n8]) + bytes(4 + 8 * n8) if t_ != 43 else bytes([0, 0]) + bytes(4 + 8 * n8))
+        reply_ext = struct.pack('>IHBB', 6 << 28, len(ext) + len(reply_l4), 0, 64) + da + sa + ext + reply_l4
+        extra.append(('mirrored reply behind %d extension headers' % len(chain), reply_ext, None))
+        for cut in range(40, min(len(reply_ext), 40 + len(ext) + 3)):
+            extra.append(('reply with extension headers cut to %d octets' % cut, reply_ext[:cut], None))
         if mcast == 2:
             l3fields = [('ipv6 destination', 24, 16)]      # a reply to ff02:: may come from anybody
     else:
-        l3req = '[2 x%s x%s %d %d x%s %s]' % (sa.hex(), da.hex(), hsize, proto, h2(ident), inner)
+        l3req = '[2 x%s x%s %d %d x%s %s]' % (sa.hex(), da.hex(), hsize, proto if (sent or lines[0].startswith('parse ')) else 0, h2(ident), inner)      # the object's protocol field is filled in by serialize()
         hl = 20
         reply_l3 = struct.pack('>BBHHHBBH', 0x45, 0, 20 + len(reply_l4), rng.randrange(65536), 0, 64, proto, 0) + da + sa + reply_l4
         l3fields = [('ip source', 12, 4), ('ip destination', 16, 4)]
@@ -133,16 +149,17 @@ def gen(rng, sid):
             if 20 <= cut < len(reply_opt):
                 extra.append(('reply with IPv4 options truncated to %d bytes' % cut, reply_opt[:cut], None))
         # ICMP destination unreachable from a router on the path: quoting OUR datagram / quoting somebody else's
+        # (the quoted protocol is compared with the request's own protocol field, which is derived on serialization: sent requests only)
         router = ip4(rng.randrange(1, 0xdfffffff))
         quoted = struct.pack('>BBHHHBBH', 0x45, 0, 20 + 8, ident, 0, 3, proto, 0x1234) + sa + da + bytes(rng.randrange(256) for _ in range(8))
         def unreach(q):
             body = struct.pack('>BBHI', 3, rng.randrange(16), 0, 0) + q
             return struct.pack('>BBHHHBBH', 0x45, 0, 20 + len(body), rng.randrange(65536), 0, 64, 1, 0) + router + sa + body
-        extra.append(('destination-unreachable quoting the request', unreach(quoted), 1))
+        extra.append(('destination-unreachable quoting the request', unreach(quoted), 1 if sent else None))
         for nm, off, ln in (('source', 12, 4), ('destination', 16, 4), ('identifier', 4, 2), ('protocol', 9, 1)):
             q = bytearray(quoted)
             q[off + rng.randrange(ln)] ^= 1 << rng.randrange(8)
-            extra.append(('destination-unreachable from a third party quoting a datagram with another ' + nm, unreach(bytes(q)), 0))
+            extra.append(('destination-unreachable from a third party quoting a datagram with another ' + nm, unreach(bytes(q)), 0 if sent else None))
     if l4 in ('UDP', 'UDPDNS'):
         # mirrored ports with a UDP length field smaller than the header, the buffer ending at or right behind the UDP header
         for ulen in (0, 1, 7, 8):
